@@ -206,6 +206,15 @@ def _hyp_task(sub, n, seed_val, deadline, st, shrink, open_sigs):
         test()
     except Violation:
         return holder["viol"]
+    except BaseException as e:
+        # Hypothesis reports a failure that does not reproduce when the example is re-run as "flaky".  The oracle is a
+        # pure function of the case, so this means the code under test answered differently depending on what the
+        # process did before (state leaking between cases).  The violation was observed against the real code: report it.
+        if type(e).__name__ in ("Flaky", "FlakyFailure", "FlakyStrategyDefinition", "FlakyReplay") and "viol" in holder:
+            case, msg, sig = holder["viol"]
+            return (case, msg + "  [history-dependent: the same case passed when re-executed in the same process; "
+                    "replaying it alone may not reproduce]", sig)
+        raise
     return None
 
 
